@@ -317,7 +317,8 @@ class ParserEngine(ParserCore, CanParse):
             if not isinstance(expression, str):
                 break
 
-            expression = trim(expression)
+            # NOTE: what no pass below changes must compare equal in the loop test
+            result = expression = trim(expression)
             with suppress(ValueError, SyntaxError):
                 result = stdlib_ast.literal_eval(expression.strip())
                 assert result is not Undefined
